@@ -74,6 +74,41 @@ pub fn compare_nan<T, N: ArrayLength, const R: usize>() {
     kani_cover!(N::USIZE == 0 || (a != a), "array with NaN is not equal to itself");
 }
 
+// ---- which element comparisons are made, and in which order (an element's own eq / partial_cmp / cmp may have effects or panic:
+// "give the results of comparing the slices" includes stopping where the slice stops)
+pub struct LogE(pub u8);
+impl PartialEq for LogE {
+    fn eq(&self, o: &LogE) -> bool { log(0x1_0000 | (self.0 as u32) << 8 | o.0 as u32); self.0 == o.0 }
+}
+impl Eq for LogE {}
+impl PartialOrd for LogE {
+    fn partial_cmp(&self, o: &LogE) -> Option<Ordering> { log(0x2_0000 | (self.0 as u32) << 8 | o.0 as u32); self.0.partial_cmp(&o.0) }
+}
+impl Ord for LogE {
+    fn cmp(&self, o: &LogE) -> Ordering { log(0x3_0000 | (self.0 as u32) << 8 | o.0 as u32); self.0.cmp(&o.0) }
+}
+fn enc(o: Option<Ordering>) -> u8 {
+    match o { None => 3, Some(Ordering::Less) => 0, Some(Ordering::Equal) => 1, Some(Ordering::Greater) => 2 }
+}
+pub fn compare_trace<T, N: ArrayLength, const R: usize>() {
+    let a: GenericArray<LogE, N> = GenericArray::generate(|_| LogE(any_u8()));
+    let b: GenericArray<LogE, N> = GenericArray::generate(|_| LogE(any_u8()));
+    let op = R;
+    let r1 = match op { 0 => (a == b) as u8, 1 => (a != b) as u8, 2 => enc(a.partial_cmp(&b)), 3 => enc(Some(a.cmp(&b))), 4 => (a < b) as u8, _ => (a >= b) as u8 };
+    let n1 = logn();
+    let (sa, sb) = (a.as_slice(), b.as_slice());
+    let r2 = match op { 0 => (sa == sb) as u8, 1 => (sa != sb) as u8, 2 => enc(sa.partial_cmp(sb)), 3 => enc(Some(sa.cmp(sb))), 4 => (sa < sb) as u8, _ => (sa >= sb) as u8 };
+    let n2 = logn();
+    assert!(r1 == r2, "result differs from the slices'");
+    assert!(n2 - n1 == n1, "the array comparison makes a different number of element comparisons than the slice comparison (e.g. no short-circuit)");
+    if n1 > 0 {
+        let j = any_upto(n1 - 1);
+        assert!(logat(j) == logat(n1 + j), "the array comparison compares other element pairs (or in another order / through another method) than the slice comparison");
+    }
+    kani_cover!(N::USIZE < 2 || n1 < N::USIZE, "stopped before the last pair");
+    kani_cover!(N::USIZE == 0 || n1 == N::USIZE, "ran to the last pair");
+}
+
 // ---- hashing: a recording Hasher
 pub const HCAP: usize = 192;
 pub struct RecHasher {
@@ -176,6 +211,14 @@ pub mod q {
         use crate::common::*;
         lattice! { compare_nan; n1: <(), U1, 0> unwind 4; n3: <(), U3, 0> unwind 6; }
     }
+    pub mod compare_trace {
+        use super::super::compare_trace;
+        use crate::common::*;
+        lattice! { compare_trace;
+            eq_n0: <(), U0, 0> unwind 3; eq_n3: <(), U3, 0> unwind 6; ne_n3: <(), U3, 1> unwind 6; pcmp_n3: <(), U3, 2> unwind 6;
+            cmp_n3: <(), U3, 3> unwind 6; lt_n3: <(), U3, 4> unwind 6; ge_n2: <(), U2, 5> unwind 5; eq_n4: <(), U4, 0> unwind 7;
+        }
+    }
     pub mod hashing {
         use super::super::hashing;
         use crate::common::*;
@@ -193,6 +236,14 @@ pub mod q {
     }
 }
 pub mod t {
+    pub mod compare_trace {
+        use super::super::compare_trace;
+        use crate::common::*;
+        lattice! { compare_trace;
+            eq_n1: <(), U1, 0> unwind 4; eq_n5: <(), U5, 0> unwind 8; eq_n8: <(), U8, 0> unwind 11; ne_n5: <(), U5, 1> unwind 8; pcmp_n5: <(), U5, 2> unwind 8;
+            cmp_n5: <(), U5, 3> unwind 8; cmp_n8: <(), U8, 3> unwind 11; lt_n5: <(), U5, 4> unwind 8; ge_n5: <(), U5, 5> unwind 8; lt_n0: <(), U0, 4> unwind 3;
+        }
+    }
     pub mod compare {
         use super::super::compare;
         use crate::common::*;
